@@ -8,7 +8,7 @@
   * every track simply playing with settled volume / fade / route parameters (`Mixer.Settled`);
   * every static sound in an arena satisfies `SysSnd.Inv` (Proofs/RealSndLemmas.lean): no latched panic, volume /
     rate / panning / fade settled, start time immediate, and either paused / stopped, or playing inside its
-    documented domain (slice inside the data, loop region valid) with enough loop fuel per frame;
+    documented domain (ANY slice; loop region absent, or non-empty and inside the sound) with enough loop fuel per frame;
   * every effect in an arena (tracks, send tracks, main track) satisfies `SysFx.Inv ibs` (Proofs/RealFxLemmas.lean):
     no latched panic, parameters at rest, reverb initialised with non-empty lines, delay line non-empty, scratch of
     every delay — nested to any depth in feedback chains — at least `ibs` frames, no panic latched in a chain;
@@ -750,10 +750,7 @@ theorem exScene_rebuf (ibs k : Nat) (snd : StaticSound ℝ) : System.rebuf k (ex
 /-- the hypotheses of `C11_real_scene_render_partition_invariant` are satisfiable: the example scene (static sound
     through a filter and a delay with a nested filter, on a sub-track routed to a send with a reverb) -/
 example : ∃ snd, StaticSound.new exSnd4 = .ok snd ∧ (exScene 8 snd).Still := by
-  have h0 : ∃ s0, StaticSound.init exSnd4 = .ok s0 := by
-    simp [StaticSound.init, exSnd4, numFrames, Transport.new]
-  obtain ⟨s0, h0⟩ := h0
-  obtain ⟨snd, hnew⟩ := StaticSound.new_total exSnd4 s0 h0 exSnd4_inDomain
+  obtain ⟨_, snd, _, hnew, _, _⟩ := StaticSound.new_total exSnd4
   exact ⟨snd, hnew, exScene_still 8 (by norm_num) snd hnew⟩
 
 /-- … so the scene built with internal buffer size 8 and rendered in callbacks of 5, 3, 7 frames, and the scene
